@@ -224,6 +224,19 @@ func randSelector(r *rng, f *Features, allowEmpty bool) metav1.LabelSelector {
 	return s
 }
 
+// randNsSelector: a namespace selector; a quarter of them name a namespace through the automatic
+// kubernetes.io/metadata.name label (an existing one or one nobody declared).
+func randNsSelector(r *rng, f *Features, allowEmpty bool) metav1.LabelSelector {
+	if r.chance(1, 4) {
+		ns := pick(r, append(append([]string{}, nsNames[:f.NNamespaces]...), "default", "elsewhere"))
+		if r.chance(1, 3) {
+			return metav1.LabelSelector{MatchExpressions: []metav1.LabelSelectorRequirement{{Key: "kubernetes.io/metadata.name", Operator: metav1.LabelSelectorOpIn, Values: []string{ns}}}}
+		}
+		return metav1.LabelSelector{MatchLabels: map[string]string{"kubernetes.io/metadata.name": ns}}
+	}
+	return randSelector(r, f, allowEmpty)
+}
+
 func randContainerPorts(r *rng) []corev1.ContainerPort {
 	var res []corev1.ContainerPort
 	used := map[string]bool{}
@@ -392,10 +405,10 @@ func randNPPeers(r *rng, f *Features) (peers []netv1.NetworkPolicyPeer, hasIP bo
 			}
 			hasIP = true
 		case k == 1:
-			s := randSelector(r, f, true)
+			s := randNsSelector(r, f, true)
 			p.NamespaceSelector = &s
 		case k == 2:
-			s1, s2 := randSelector(r, f, true), randSelector(r, f, true)
+			s1, s2 := randNsSelector(r, f, true), randSelector(r, f, true)
 			p.NamespaceSelector, p.PodSelector = &s1, &s2
 		default:
 			s := randSelector(r, f, true)
@@ -454,10 +467,10 @@ func randANPPorts(r *rng, f *Features) *[]apisv1a.AdminNetworkPolicyPort {
 
 func randSubject(r *rng, f *Features) apisv1a.AdminNetworkPolicySubject {
 	if r.chance(1, 2) {
-		s := randSelector(r, f, true)
+		s := randNsSelector(r, f, true)
 		return apisv1a.AdminNetworkPolicySubject{Namespaces: &s}
 	}
-	return apisv1a.AdminNetworkPolicySubject{Pods: &apisv1a.NamespacedPod{NamespaceSelector: randSelector(r, f, true), PodSelector: randSelector(r, f, true)}}
+	return apisv1a.AdminNetworkPolicySubject{Pods: &apisv1a.NamespacedPod{NamespaceSelector: randNsSelector(r, f, true), PodSelector: randSelector(r, f, true)}}
 }
 
 func randANPIngressPeers(r *rng, f *Features) []apisv1a.AdminNetworkPolicyIngressPeer {
@@ -516,6 +529,22 @@ func randBANP(r *rng, f *Features, name string) Doc {
 		b.Spec.Egress = append(b.Spec.Egress, apisv1a.BaselineAdminNetworkPolicyEgressRule{Action: pick(r, acts), To: randANPEgressPeers(r, f), Ports: randANPPorts(r, f)})
 	}
 	return toDoc("BaselineAdminNetworkPolicy", "", name, b)
+}
+
+// svcSelector: the workload's labels, a subset of them, or (one Service in six) no selector at all.
+func svcSelector(r *rng, labels map[string]string) map[string]string {
+	switch r.intn(6) {
+	case 0:
+		return nil
+	case 1:
+		out := map[string]string{}
+		for _, k := range sortedKeys(labels) {
+			out[k] = labels[k]
+			break
+		}
+		return out
+	}
+	return labels
 }
 
 func nsDoc(name string, labels map[string]string) Doc {
@@ -620,7 +649,7 @@ func genWorld(r *rng, f Features) *World {
 				}
 			}
 			w.Docs = append(w.Docs, toDoc("Service", t.ns, svc, &corev1.Service{TypeMeta: metav1.TypeMeta{APIVersion: "v1", Kind: "Service"},
-				ObjectMeta: metav1.ObjectMeta{Name: svc, Namespace: t.ns}, Spec: corev1.ServiceSpec{Selector: t.labels, Ports: []corev1.ServicePort{sp}}}))
+				ObjectMeta: metav1.ObjectMeta{Name: svc, Namespace: t.ns}, Spec: corev1.ServiceSpec{Selector: svcSelector(r, t.labels), Ports: []corev1.ServicePort{sp}}}))
 			if r.chance(1, 2) {
 				pt := netv1.PathTypePrefix
 				be := netv1.IngressBackend{Service: &netv1.IngressServiceBackend{Name: svc, Port: netv1.ServiceBackendPort{Number: 80}}}
